@@ -93,6 +93,8 @@ func c02Exec(run *ev.Run, c ev.Case) {
 				one("baseline", 0, 0)
 				one("wrong-password", 0, 0)
 				one("wrong-password-prefix", 0, 0)
+				one("password-long-prefix", 0, 0)
+				one("password-long-other-tail", 0, 0)
 				one("wrong-kg", 0, 0)
 				one("username-case", 0, 0)
 				// the BMC's key differs from the caller's in one of the ways a misconfiguration produces
@@ -191,6 +193,16 @@ func c02Run(run *ev.Run, o c02One) {
 		wantIncorrectPassword = true
 	case "wrong-password-prefix":
 		cfg.Password = []byte("correct horse!") // the console's password is a strict prefix
+		wantIncorrectPassword = true
+	case "password-long-prefix":
+		// the caller's password is longer than the 20 bytes a BMC stores; the BMC holds its first 20 bytes
+		opts.Password = []byte("correct horse battery staple")
+		cfg.Password = append([]byte(nil), opts.Password[:20]...)
+		wantIncorrectPassword = true
+	case "password-long-other-tail":
+		// both ends hold long keys that agree in the first 20 bytes only
+		opts.Password = []byte("correct horse battery staple")
+		cfg.Password = []byte("correct horse batterXXXXXXXX")
 		wantIncorrectPassword = true
 	case "wrong-kg":
 		if !o.KG {
